@@ -365,6 +365,13 @@ PREPS = (
     ('sd.req20', 1, (('resolve', 20),)),
     ('sd.reqlong', 1, (('resolve', 'M-2'),)),
     ('sd.res1+req20', 1, (('snl_in', 1), ('resolve', 20))),
+    # two lookups pending whose requests fit into one SNL exactly / not quite
+    ('sd.req2.fit', 1, (('resolve', ('pair', 0, 0)),
+                        ('resolve', ('pair', 1, 0)))),
+    ('sd.req2.over1', 1, (('resolve', ('pair', 0, 1)),
+                          ('resolve', ('pair', 1, 1)))),
+    ('sd.req2.over2', 1, (('resolve', ('pair', 0, 2)),
+                          ('resolve', ('pair', 1, 2)))),
     # (e) a connection just accepted: CC pending, receive window 0 / 1 / 2
     ('cc.pending.rw0', 0, (('pdu_in', 'connect33'), ('accept',))),
     ('cc.pending.rw1', 1, (('pdu_in', 'connect33'), ('accept',))),
@@ -493,6 +500,12 @@ class DeepSpec(Spec):
             assert len(A.sap[1].sdres) == st[1]
         elif kind == 'resolve':
             n = self.M - 2 if st[1] == 'M-2' else st[1]
+            if isinstance(n, tuple):
+                # ('pair', i, d): the i-th of two names whose SDREQ TLVs
+                # (3 + length each) take M + d octets together
+                total = self.M + n[2] - 6
+                la = total // 2 - 1
+                n = (la, total - la)[n[1]]
             r = lp.seq_call(lambda: A.resolve(name_of_len(n)))
             assert r[0] == 'blocked', r
         else:
